@@ -20,7 +20,7 @@ from mc.runner import Collector
 
 ID = "C19"
 LEVEL = "model_checking"
-REQUIRED_CLASSES = ["pair-ok"]
+REQUIRED_CLASSES = ["pair-ok", "slices-ok"]
 RULE = ("one unit = one (volume, option set, variant): volumes (130,3,2) "
         "uint8, (260,2,1) uint8 [3 scales], (130,70,1) uint16 with 1x1x4 mm "
         "voxels, (130,2,2) float32 with header slope 2, (130,3,2) uint16 "
@@ -34,7 +34,9 @@ RULE = ("one unit = one (volume, option set, variant): volumes (130,3,2) "
         "(thorough) with states deduplicated on the canonical workspace "
         "content. Oracles: all-in-one state == step-by-step state; c;c == c "
         "for every data-writing command; status 0 implies complete and "
-        "readable output; scale-stats changes nothing. Non-trivial states: "
+        "readable output; scale-stats changes nothing; the slice-stack workflow (same voxels "
+        "as PNG slices) gives the same dataset as the volume workflow. "
+        "Non-trivial states: "
         "at least one dataset holds decoded chunks.")
 ASSUMPTIONS = [
     "commands are run in-process through main(argv) exactly as the console "
@@ -344,6 +346,13 @@ def explore(col, vol, optset, mmap, depth, method="explicit"):
                               (b or {}).get("scales"))
             else:
                 col.ev(1, 1, "pair-ok")
+            # oracle (v): the slice-stack workflow (same voxels delivered as
+            # PNG slices in RAS order) gives the same dataset as the volume
+            # workflow
+            v = VOLUMES[vol]
+            if v["dtype"] == "uint8" and not v.get("slope") \
+                    and rp.ok and complete(a):
+                _slices_equivalence(col, case0, ws, cmds, vol, optset, a)
         else:
             # sharded: the step-by-step pipeline alone must succeed
             restore(ws, seen[k0][1])
@@ -426,6 +435,47 @@ def conformance(col, vol, optset, tier):
         sandbox.drop_captured_exit_handlers()
         sandbox.rm(ws_a)
         sandbox.rm(ws_b)
+
+
+def _slices_equivalence(col, case0, ws, cmds, vol, optset, ref_main):
+    import PIL.Image
+    v = VOLUMES[vol]
+    shape = v["shape"]
+    import nibabel
+    arr = np.asarray(nibabel.load(os.path.join(ws, "v.nii")).dataobj)
+    sdir = os.path.join(ws, "slices")
+    shutil.rmtree(sdir, ignore_errors=True)
+    os.makedirs(sdir)
+    for k in range(shape[2]):
+        # image[row r][column c] = volume[x=c, y=r, z=k]  (code "RAS")
+        PIL.Image.fromarray(np.ascontiguousarray(arr[:, :, k].T)).save(
+            os.path.join(sdir, "s%04d.png" % k))
+    D4 = os.path.join(ws, "fromslices")
+    shutil.rmtree(D4, ignore_errors=True)
+    os.makedirs(D4)
+    shutil.copy(os.path.join(ws, "main", "info"), os.path.join(D4, "info"))
+    o = OPTSETS[optset]
+    r1 = sandbox.run_cli("slices_to_precomputed",
+                         [sdir, D4, "--input-orientation", "RAS"] + o)
+    r2 = sandbox.run_cli("compute_scales", [D4] + o + cmds[
+        "compute-scales"][1][len([D4] + o):])
+    c = dataset_canon(D4)
+    case = dict(case0, history=["gen-info", "gen-scales", "vol2pre",
+                                "compute-scales", "slices-to-precomputed",
+                                "compute-scales(slices)"])
+    if not (r1.ok and r2.ok):
+        col.ev(1, 1, "slices-bad")
+        col.violation("C19/slices-workflow-fails", case, "status 0",
+                      "%s; %s" % (r1.brief(), r2.brief()))
+    elif (c or {}).get("scales") != ref_main.get("scales"):
+        col.ev(1, 1, "slices-bad")
+        col.violation("C19/slices-workflow-voxels-differ-from-volume-"
+                      "workflow", case, ref_main.get("scales"),
+                      (c or {}).get("scales"))
+    else:
+        col.ev(1, 1, "slices-ok")
+    shutil.rmtree(sdir, ignore_errors=True)
+    shutil.rmtree(D4, ignore_errors=True)
 
 
 def units(tier):
